@@ -287,6 +287,40 @@ impl<VM: VMBinding> AllocatorContext<VM> {
     }
 }
 
+/// Verification hooks: an allocator context that does not need an `MMTK` instance.  The global
+/// state and the GC trigger are zero-initialised memory (the allocation slow path reads only the
+/// atomic flags of the former and, with stress testing off, nothing of the latter); the context is
+/// leaked, never dropped.
+#[cfg(mmtk_verif)]
+impl<VM: VMBinding> AllocatorContext<VM> {
+    pub fn verif_new() -> &'static Self {
+        let options: Options =
+            std::mem::ManuallyDrop::into_inner(Options::verif_zeroed_no_stress());
+        let ctx = Self {
+            alloc_options: AllocationOptionsHolder::new(AllocationOptions::default()),
+            state: Arc::new(unsafe { std::mem::zeroed() }),
+            thrown_oom: AtomicBool::new(false),
+            options: Arc::new(options),
+            gc_trigger: Arc::new(unsafe { std::mem::zeroed() }),
+            #[cfg(feature = "analysis")]
+            analysis_manager: unimplemented!(),
+        };
+        Box::leak(Box::new(ctx))
+    }
+    pub fn verif_alloc_options(&self) -> AllocationOptions {
+        self.get_alloc_options()
+    }
+    pub fn verif_set_emergency_collection(&self, v: bool) {
+        self.state.emergency_collection.store(v, Ordering::Relaxed);
+    }
+    pub fn verif_set_allocation_success(&self, v: bool) {
+        self.state.allocation_success.store(v, Ordering::SeqCst);
+    }
+    pub fn verif_thrown_oom(&self) -> bool {
+        self.thrown_oom.load(Ordering::Relaxed)
+    }
+}
+
 fn reset_allocation_state<VM: VMBinding, A: Allocator<VM> + ?Sized>(allocator: &A) {
     let context = allocator.get_context();
     // Relaxed store is fine since this is a thread-local boolean.
